@@ -63,7 +63,7 @@ fn setup_chunked(ctx: &mut Ctx) -> R<(Sender, &'static str)> {
             0 => ("POST", false),
             1 => ("PUT", false),
             2 => ("PATCH", false),
-            3 => ("POST", true),
+            3 => (*ctx.pick(&["GET", "DELETE", "OPTIONS", "POST"]), true),
             _ => ("PUT", false),
         }
     };
@@ -79,7 +79,13 @@ fn setup_chunked(ctx: &mut Ctx) -> R<(Sender, &'static str)> {
     let via_added = explicit && !use_call && ctx.flip();
     let (s, _head) = match reach_sender_ex(ctx, framing, use_call, method, despite, via_added) {
         Ok(v) => v,
-        Err(e) => fail!("FOREIGN", "", "cannot reach the body state: {}", e),
+        Err(e) => {
+            if e.contains("emitted after the head was complete") {
+                set_observed(true);
+                fail!("C03.terminator_outside_body_write", "", "a further head write after the head was complete reached the body writer: {}", e);
+            }
+            fail!("FOREIGN", "", "cannot reach the body state: {}", e)
+        }
     };
     set_observed(true);
     ctx.sample(|| format!("chunked request body, api={}, framing header {}, method {}", if use_call { "Call" } else { "Flow" }, if explicit { "supplied" } else { "defaulted" }, method));
